@@ -43,7 +43,15 @@ var (
 // targets with many selectors; every constant still meets every selector class
 // over a full cycle because the stride is coprime to the list length.
 func addSeeds(f *testing.F, tg *textTarget, hostileStride int) {
-	for _, s := range tg.seeds {
+	// The fuzzing engine replays every seed once per worker start-up
+	// ("gathering baseline coverage", ~100/s), so the (selector x literal)
+	// cross product is thinned to about a thousand entries; the rapid test
+	// samples from the full product.
+	seedStride := len(tg.seeds)/900 + 1
+	for i, s := range tg.seeds {
+		if (i+s.sel)%seedStride != 0 {
+			continue
+		}
 		f.Add(uint8(s.sel), []byte(s.data))
 	}
 	k := 0
@@ -58,8 +66,11 @@ func addSeeds(f *testing.F, tg *textTarget, hostileStride int) {
 	}
 }
 
-func fuzzTarget(f *testing.F, tg *textTarget, hostileStride int) {
+func fuzzTarget(f *testing.F, tg *textTarget, hostileStride int, always ...textSeed) {
 	addSeeds(f, tg, hostileStride)
+	for _, s := range always {
+		f.Add(uint8(s.sel), []byte(s.data))
+	}
 	f.Fuzz(func(t *testing.T, sel uint8, data []byte) {
 		r := tg.run(int(sel)%tg.nsel, data)
 		if r.viol != nil {
@@ -71,14 +82,25 @@ func fuzzTarget(f *testing.F, tg *textTarget, hostileStride int) {
 	})
 }
 
-func FuzzC16ParseString(f *testing.F)     { fuzzTarget(f, tgtParseString, 7) }
-func FuzzC16Splitters(f *testing.F)       { fuzzTarget(f, tgtSplitters, 1) }
-func FuzzC16CaseDecoders(f *testing.F)    { fuzzTarget(f, tgtCase, 1) }
+func FuzzC16ParseString(f *testing.F) {
+	// the seeds that re-find the genuine defects are never thinned out
+	var always []textSeed
+	for i, p := range psTypes {
+		if p.knownKey != "" {
+			always = append(always, textSeed{i, "1"}, textSeed{i, "a:1"}, textSeed{i, "a,b"})
+		}
+	}
+	fuzzTarget(f, tgtParseString, 24, always...)
+}
+func FuzzC16Splitters(f *testing.F)       { fuzzTarget(f, tgtSplitters, 6) }
+func FuzzC16CaseDecoders(f *testing.F)    { fuzzTarget(f, tgtCase, 3) }
 func FuzzC16ParsingDuration(f *testing.F) { fuzzTarget(f, tgtDuration, 1) }
-func FuzzC16DecodeJSON(f *testing.F)      { fuzzTarget(f, tgtJSON, 1) }
-func FuzzC16DecodeYAML(f *testing.F)      { fuzzTarget(f, tgtYAML, 1) }
-func FuzzC16DecodeTOML(f *testing.F)      { fuzzTarget(f, tgtTOML, 1) }
-func FuzzC16DecodeCue(f *testing.F)       { fuzzTarget(f, tgtCue, 1) }
-func FuzzC16EnvValue(f *testing.F)        { fuzzTarget(f, tgtEnv, 5) }
-func FuzzC16FlagArgs(f *testing.F)        { fuzzTarget(f, tgtFlag, 1) }
-func FuzzC16PflagArgs(f *testing.F)       { fuzzTarget(f, tgtPflag, 1) }
+func FuzzC16DecodeJSON(f *testing.F)      { fuzzTarget(f, tgtJSON, 2) }
+func FuzzC16DecodeYAML(f *testing.F)      { fuzzTarget(f, tgtYAML, 3) }
+func FuzzC16DecodeTOML(f *testing.F)      { fuzzTarget(f, tgtTOML, 2) }
+func FuzzC16DecodeCue(f *testing.F)       { fuzzTarget(f, tgtCue, 2) }
+func FuzzC16EnvValue(f *testing.F)        { fuzzTarget(f, tgtEnv, 12) }
+func FuzzC16FlagArgs(f *testing.F) {
+	fuzzTarget(f, tgtFlag, 1, textSeed{0, "-ip=10.0.0.1"})
+}
+func FuzzC16PflagArgs(f *testing.F) { fuzzTarget(f, tgtPflag, 1) }
